@@ -386,7 +386,7 @@ func c12Seq(tier string, shard, n int, deadline time.Time, res *Result) {
 
 func init() {
 	register(&Check{ID: "C12", Level: "model_checking",
-		Rule:      "(a) EVERY byte string up to length 4 (thorough 6) over {* $ - 0 1 2 9 CR LF g}; (b) for 12 valid requests EVERY single-position deletion, insertion and substitution (quick: from a 5-symbol subset; thorough: full alphabet, each also in every single-cut segmentation) and EVERY replacement of every count/length field by {empty, 0, -1, -2, 00, 01, +1, 1a, ' 1', '1 ', 2^31, 2^63, 10^20, -0}; (c) every proper prefix; (d) huge array counts in a child process under a 4 GiB address-space limit; each input is sent by one client while a witness client does GET and split MGET round trips before and after; oracle: no panic / fatal / livelock, witness replies correct, every byte sequence any node received parses under the strict Redis request grammar, and the offending connection ends closed, answered with an error, or holding a proper prefix of a valid request; distinct = observable outcomes",
-		Gen: c12Gen, FromName: c12FromName, Seq: c12Seq, BudgetQuick: 100, BudgetThorough: 1500,
+		Rule: "(a) EVERY byte string up to length 4 (thorough 6) over {* $ - 0 1 2 9 CR LF g}; (b) for 12 valid requests EVERY single-position deletion, insertion and substitution (quick: from a 5-symbol subset; thorough: full alphabet, each also in every single-cut segmentation) and EVERY replacement of every count/length field by {empty, 0, -1, -2, 00, 01, +1, 1a, ' 1', '1 ', 2^31, 2^63, 10^20, -0}; (c) every proper prefix; (d) huge array counts in a child process under a 4 GiB address-space limit; each input is sent by one client while a witness client does GET and split MGET round trips before and after; oracle: no panic / fatal / livelock, witness replies correct, every byte sequence any node received parses under the strict Redis request grammar, and the offending connection ends closed, answered with an error, or holding a proper prefix of a valid request; distinct = observable outcomes",
+		Gen:  c12Gen, FromName: c12FromName, Seq: c12Seq, BudgetQuick: 100, BudgetThorough: 1500,
 		Assumptions: []string{"strict grammar = what a Redis server accepts from RESP clients without answering 'Protocol error' (canonical decimal lengths, count >= 1); '*0' / '*-n' lines, which Redis skips silently, may be skipped, answered with an error or lead to a close"}})
 }
